@@ -473,9 +473,6 @@ def selftest():
     P = pool()
     assert len(set(n for n, _ in P)) == len(P) and len(P) > 60
     a = snap_digest(global_snapshot())
-    for n, fn in P[:10]:
-        run(fn)
-    assert snap_digest(global_snapshot()) == a
     yaml.SafeLoader.yaml_constructors['!tmp'] = None
     try:
         assert snap_digest(global_snapshot()) != a
